@@ -77,6 +77,26 @@ def run(ctx: Ctx):
                     ctx.fail("P:C05:value-roundtrip", {"c": c, "cls": cls.__name__, "impl_equal": False, "hazard": True}, [got, val], None)
             elif out != "refused":
                 ctx.fail("P:C05:component-no-injection", {"c": c, "cls": cls.__name__, "impl_equal": False, "hazard": True}, [out, detail if out == "corrupted" else None], None)
+    # property NAMES that are substrings / prefixes / extensions of names the parser treats specially: an unknown name is a
+    # single TEXT property whatever it resembles
+    for nm in ["BUSY", "FREE", "E", "B", "F", "FREEBUSYX", "X-FREEBUSY", "BEGINNING", "ENDING", "EN", "BEG", "X-BEGIN", "X-END", "RDATE2", "DATE", "EXDAT",
+               "CATEGORIE", "CATEGORIESX", "RESOURCE", "TZIDX", "VALUE", "DTSTARTX", "X-COMMENTX", "X", "A-B-C", "N1", "1N"]:
+        for val in ["lunch, then gym", "a;b:c,d", "20240101T000000Z/PT1H,20240102T000000Z/PT1H", "x"]:
+            for cls in (Event, Todo):
+                ctx.evaluations += 1
+                ctx.case(("name", nm, val, cls.__name__), True)
+                c0 = cls()
+                try:
+                    c0.add(nm, val, parameters={"P": "1"})
+                    b = c0.to_ical()
+                    back = cls.from_ical(b)
+                except ValueError:
+                    continue
+                st = cl.structure(back)
+                ok = st == [[nm.upper(), ["P"]]] and not back.subcomponents and str.__str__(back[nm]) == val
+                if not ok and not (st == [] and back.errors):
+                    ctx.fail("P:C05:component-no-injection", {"name": nm, "value": val, "cls": cls.__name__, "impl_equal": False},
+                             {"props": st, "values": [str(x) for x in (back.get(nm) if isinstance(back.get(nm), list) else [back.get(nm)])][:4]}, None)
     # hostile whole-text payloads through every text-like value type
     rnd = random.Random(ctx.seed)
     payloads = ["\r\nBEGIN:VEVENT\r\nSUMMARY:x\r\nEND:VEVENT", "a\nATTENDEE:mailto:x", "x\r\n END:VCALENDAR",
